@@ -1,6 +1,7 @@
 import FCA.Model.Formats
 import FCA.Generated.Formats
 import FCA.Generated.CxtLines
+import FCA.Generated.TableDump
 /-
 C12: the constants the format model is written with are the ones in the current source
 (`concepts/formats/*.py`) and in the running CPython (`str.isspace`), regenerated on every run.
@@ -48,6 +49,16 @@ theorem C12_generated_cxt_dump (objects properties : List Str) (bools : List (Li
   simp only [Generated.cxt_lines, dumpCxt, hs]
   rfl
 
+/-! ### the table writer -/
+
+/-- `Table.dumps(…, indent=…)` of the current source — the header and one line per object printed through the `%-Ns|` template,
+then the final `rstrip()` (`dumps_rstrip`, see `C12_generated_tables`) — is the model's `dumpTable` (the subject of
+`C12_table_roundtrip`, `C12_strict_table`) -/
+theorem C12_generated_table_dump (indent : Nat) (objects properties : List Str) (bools : List (List Bool)) :
+    rstripBy isSpace (unlines (Generated.table_lines indent objects properties bools)) =
+      dumpTable indent objects properties bools := rfl
+
 end FCA
 #print axioms FCA.C12_generated_whitespace
 #print axioms FCA.C12_generated_cxt_dump
+#print axioms FCA.C12_generated_table_dump
